@@ -20,6 +20,13 @@ Theorem C14_mutual_exclusion : forall (w t0 : Z) (roles : tid -> role) (sched : 
 Proof. exact mutual_exclusion. Qed.
 Print Assumptions C14_mutual_exclusion.
 
+(** No path keeps the mutex: in any state the holder of the lock can take its next step (and
+    after at most three of its own steps it has released it). *)
+Theorem C14_holder_never_blocked : forall (w : Z) (s : state) (t : tid),
+  holds (thr s t) = true -> step w s (LThr t) <> None.
+Proof. exact holder_never_blocked. Qed.
+Print Assumptions C14_holder_never_blocked.
+
 (** Refinement: every trace of the transition system is accepted by the timed-set
     specification [mon_step] — the same function the check evaluates on the stamped log of
     the implementation — and the specification's state is the repository's map. *)
@@ -98,8 +105,9 @@ Print Assumptions C14_api_observation_ok.
     NOT checked by IsDuplicate; a key stays remembered until a sweep whose tick time T is
     later than its expiry has run.  Once such a sweep has run (and no call re-inserted the key
     since the insertion), the next call with that key is answered "new".  How soon such a
-    sweep happens is up to the ticker (period w/2) and the scheduler: an oracle here. *)
-Theorem C14_expired_key_reaccepted : forall (w t0 : Z) roles sched pre t m k tins mid c T clk ks post e rest,
+    sweep happens is up to the ticker (period w/2) and the scheduler: an oracle here, which is
+    why the name says partial (on the implementation: the map empties itself within 15 s). *)
+Theorem C14_expired_key_reaccepted_partial : forall (w t0 : Z) roles sched pre t m k tins mid c T clk ks post e rest,
   rev (trace (run w (init t0 roles) sched))
     = pre ++ EIns t m k tins :: mid ++ ESweep c T clk ks :: post ++ e :: rest ->
   tins + w < T ->
@@ -107,7 +115,7 @@ Theorem C14_expired_key_reaccepted : forall (w t0 : Z) roles sched pre t m k tin
   calls_key k e = true ->
   is_dup e = false.
 Proof. exact expired_key_reaccepted. Qed.
-Print Assumptions C14_expired_key_reaccepted.
+Print Assumptions C14_expired_key_reaccepted_partial.
 
 (** A sweep is complete: while the cleaner still holds the lock after cleanOut(T), no
     remembered key has an expiry before T. *)
